@@ -4,6 +4,7 @@
 import abc
 import collections
 import datetime
+import decimal
 import enum
 import json
 
@@ -519,6 +520,10 @@ class FieldValueComponentFloat(FieldValueComponentNumber):
         validator=attr.validators.instance_of(float)
     )
 
+    def __attrs_post_init__(self):
+        if self.value != self.value or self.value in (float('inf'), float('-inf')):
+            raise InvalidValue(self.value, type(self), 'value')
+
     @classmethod
     @abc.abstractmethod
     def get_canonical_name(cls):
@@ -526,6 +531,9 @@ class FieldValueComponentFloat(FieldValueComponentNumber):
 
     def _get_value_as_simple_type(self):
         return self.value
+
+    def _get_value_as_str(self):
+        return format(decimal.Decimal(repr(self.value)), 'f')
 
     @classmethod
     def _parse_value(cls, parser):
